@@ -53,8 +53,11 @@ def generate(rng, tier) -> dict:
         if big:
             spec["big"] = True
         N = sum(counts)
-        if rng.random() < 0.6:
+        r = rng.random()
+        if r < 0.5:
             start, nsamps = 0, None
+        elif r < 0.65:
+            start, nsamps = rng.randint(0, N - 1), None
         else:
             start = rng.randint(0, N - 1)
             nsamps = rng.randint(1, N - start)
